@@ -31,14 +31,14 @@ type step struct {
 }
 
 type c01Case struct {
-	H, Seed    int
-	N          int64
-	Serve      int64 // server's tree size (<= N)
-	Stored     int64 // size of the head stored in the client's configuration (0 = empty)
-	Prefill    int
-	PrefillTo  int64
-	Steps      []step
-	Faults     []sw.Fault
+	H, Seed   int
+	N         int64
+	Serve     int64 // server's tree size (<= N)
+	Stored    int64 // size of the head stored in the client's configuration (0 = empty)
+	Prefill   int
+	PrefillTo int64
+	Steps     []step
+	Faults    []sw.Fault
 }
 
 func genN(t *rapid.T, max int64) int64 {
@@ -196,94 +196,6 @@ func sameLines(a, b []string) bool {
 	return true
 }
 
-// auditWrites checks every cache and configuration write against the ground truth.
-// logs lists the logs whose content counts as genuine.
-func auditWrites(w *sw.World, events []sw.Event) *pbt.Failure {
-	for _, e := range events {
-		switch e.Op {
-		case "security":
-			if w.B == nil {
-				return pbt.Failf("false-security-error", "a security error was raised although only one log exists:\n%s", e.Name)
-			}
-		case "writeconfig":
-			if e.Err {
-				continue
-			}
-			if e.Name != w.Name+"/latest" {
-				return pbt.Failf("config-file", "WriteConfig to unexpected file %q", e.Name)
-			}
-			n, hash, ok := w.OpenHead(e.Delivered)
-			if !ok {
-				return pbt.Failf("stored-head-unsigned", "a head that does not open under the server key was stored: %q", e.Delivered)
-			}
-			inA, inB := w.WhichLogs(n, hash)
-			if !inA && !inB {
-				return pbt.Failf("stored-head-not-genuine", "a head for tree size %d that belongs to no log was stored", n)
-			}
-			oldN := int64(0)
-			if len(e.Old) > 0 {
-				on, _, ok := w.OpenHead(e.Old)
-				if !ok {
-					return pbt.Failf("replaced-head-unsigned", "WriteConfig replaces a value that is not a signed head: %q", e.Old)
-				}
-				oldN = on
-			}
-			if n < oldN {
-				return pbt.Failf("stored-head-regressed", "stored head moved from size %d to %d", oldN, n)
-			}
-		case "writecache":
-			rest := strings.TrimPrefix(e.Name, w.Name)
-			switch {
-			case strings.HasPrefix(rest, "/lookup/"):
-				id, text, head, ok := sw.ParseLookupFile(e.Delivered)
-				if !ok {
-					return pbt.Failf("cached-lookup-malformed", "malformed lookup file cached as %q: %q", e.Name, e.Delivered)
-				}
-				var l *sw.Log
-				for _, cand := range []*sw.Log{w.A, w.B} {
-					if cand != nil && id < cand.Size() && bytes.Equal(cand.Texts[id], text) {
-						l = cand
-						break
-					}
-				}
-				if l == nil {
-					return pbt.Failf("cached-record-not-genuine", "record %d cached as %q is not the genuine record: %q", id, e.Name, text)
-				}
-				// (The file name is not compared with the record's module: a server that answers with another
-				// genuine record gets it cached under the requested name. That is authenticated data, which is
-				// all the property demands; a later lookup re-validates it and returns no lines.)
-				n, hash, ok := w.OpenHead(head)
-				inA, inB := w.WhichLogs(n, hash)
-				// (The cached head need not contain the record: a server may attach an older genuine head, and the
-				// client authenticates the record against its own newer head. Both pieces are authenticated.)
-				if !ok || !(inA || inB) {
-					return pbt.Failf("cached-head-not-genuine", "lookup file %q (record %d) cached with a head that is not a genuine signed head (opens=%v size=%d)", e.Name, id, ok, n)
-				}
-			case strings.HasPrefix(rest, "/tile/"):
-				t, ok := sw.ParseTilePath(rest[1:])
-				if !ok {
-					return pbt.Failf("cached-tile-name", "tile cached under unparseable name %q", e.Name)
-				}
-				match := false
-				for _, l := range []*sw.Log{w.A, w.B} {
-					if l == nil {
-						continue
-					}
-					if truth, ok := w.Tile(l, l.Size(), t); ok && bytes.Equal(truth, e.Delivered) {
-						match = true
-					}
-				}
-				if !match {
-					return pbt.Failf("cached-tile-not-genuine", "tile %q was written to the cache with content that is not the true tile", e.Name)
-				}
-			default:
-				return pbt.Failf("cache-file", "WriteCache to unexpected file %q", e.Name)
-			}
-		}
-	}
-	return nil
-}
-
 func check(c c01Case) pbt.Result {
 	r := pbt.Result{}
 	if !okCase(c) {
@@ -307,7 +219,7 @@ func check(c c01Case) pbt.Result {
 			return r
 		}
 	}
-	if f := auditWrites(w, ops0.Snapshot()); f != nil {
+	if f := sw.AuditWrites(w, ops0.Snapshot()); f != nil {
 		f.Msg = "fault-free run: " + f.Msg
 		r.Fail = f
 		return r
@@ -366,7 +278,7 @@ func check(c c01Case) pbt.Result {
 			return r
 		}
 	}
-	if f := auditWrites(w, events); f != nil {
+	if f := sw.AuditWrites(w, events); f != nil {
 		f.Msg += fmt.Sprintf("\nfaults: %+v", c.Faults)
 		r.Fail = f
 		return r
